@@ -101,6 +101,8 @@ class VGen:
             return ["bytes", self.r.choice(["", "00ff10", "6162"])]
         if c == 6:
             self.ident()
+            if not self.sup and self.r.random() < 0.5:
+                return ["mybytes", self.r.choice(["MyBytes", "MyByteArray", "np.bytes_"]), self.r.choice(["6162", "00ff"])]
             return ["bytearray", self.r.choice(["", "0102"])]
         if c == 7:
             return ["slice", self.r.choice([["none"], ["int", 1]]), self.r.choice([["none"], ["int", 5]]), self.r.choice([["none"], ["int", 2]])]
